@@ -6,14 +6,15 @@ import itertools
 from .. import gen, oracle, tt as T
 from .base import Mgr, replay  # noqa: F401
 
-RULE = ('histories over {var, and, not-and, xor, incref, decref, collect, collect(roots), swap, '
-        'ite on a recycled cache key}: all sequences up to length L over a 12-letter alphabet '
+RULE = ('histories over {var, and, not-and, xor, incref, release-at-zero, decref, collect, collect(roots), swap, '
+        'ite on a recycled cache key}: all sequences up to length L over a 13-letter alphabet '
         '(3 variables) exhaustively (L=4 quick, 5 thorough) and long random histories; a case is '
         'one step of one history; distinct by the history prefix')
 EXHAUSTIVE = {'quick': True, 'thorough': True}
-ASSUMES = ['histories never release more than they took (decref flooring unreachable)']
+ASSUMES = ['a release on a node whose count is 0 is documented as having no effect: exercised; a release that '
+           'drops a count below the number of stored edges is a caller error and is not generated']
 
-LETTERS = ['var0', 'var1', 'var2', 'and', 'nand', 'xor', 'incref', 'decref', 'gc', 'gcroots', 'swap', 'ite']
+LETTERS = ['var0', 'var1', 'var2', 'and', 'nand', 'xor', 'incref', 'decref', 'decref0', 'gc', 'gcroots', 'swap', 'ite']
 
 
 class Hist:
@@ -61,6 +62,17 @@ class Hist:
                 self.ledger[abs(u)] -= 1
                 if u not in self.held:
                     self.tts.pop(u, None)
+        elif letter == 'decref0':
+            # one release too many on a node whose count is 0 (no stored edge, no external
+            # reference): documented as "no effect" (a warning); later increments count from 0
+            zero = [u for u in self.recent if abs(u) in M.b._succ and M.b._ref[abs(u)] == 0]
+            if zero:
+                u = pick(zero)
+                M.op('decref', u)
+                M.op('incref', u)
+                self.ledger[abs(u)] = self.ledger.get(abs(u), 0) + 1
+                self.held.append(u)
+                self.tts[u] = M.tt(u)
         elif letter == 'gc':
             before = set(M.b._succ)
             M.op('gc', None)
